@@ -49,7 +49,7 @@ func genTxSpecs(t *rapid.T, max int) []TxSpec {
 func genTxHist(t *rapid.T, withRestart bool) *TxHistScenario {
 	sc := &TxHistScenario{Txs: genTxSpecs(t, 9), Untrusted: rapid.IntRange(0, 2).Draw(t, "untrusted")}
 	n := len(sc.Txs)
-	ops := []string{"inv", "inv", "tx", "tx", "submit", "txstep", "txstep", "txstep", "deliver", "deliver", "deliver", "udeliver", "udeliver", "ucheck", "mine", "blockstep", "blockstep", "ping"}
+	ops := []string{"inv", "inv", "invsilent", "reconnect", "tx", "tx", "submit", "txstep", "txstep", "txstep", "deliver", "deliver", "deliver", "udeliver", "udeliver", "ucheck", "mine", "blockstep", "blockstep", "ping"}
 	if withRestart {
 		ops = append(ops, "restart")
 	}
@@ -58,7 +58,11 @@ func genTxHist(t *rapid.T, withRestart bool) *TxHistScenario {
 	for i := 0; i < nev; i++ {
 		ev := TxEvent{Op: rapid.SampledFrom(ops).Draw(t, "op")}
 		switch ev.Op {
-		case "inv":
+		case "reconnect":
+			if rapid.IntRange(0, 3).Draw(t, "rc") != 0 {
+				continue
+			}
+		case "inv", "invsilent":
 			ev.Src = rapid.IntRange(0, sc.Untrusted).Draw(t, "src")
 			for k, c := 0, rapid.IntRange(1, 3).Draw(t, "cnt"); k < c; k++ {
 				ev.Txs = append(ev.Txs, rapid.IntRange(0, n-1).Draw(t, "tx"))
